@@ -16,6 +16,7 @@ RULE = ("(direct) every default observable's apply() on generated kets and full-
         "times, pure and dissipative: each observable holds exactly its requested times, ascending, one value each, "
         "retrievable by tag and instance, and every stored value equals the definition recomputed from the stored state "
         "and get_hamiltonian at that time. non-trivial = distinct (workload, dims, state kind, observable/time configuration)")
+RULE += " Later additions: runs with state-preparation errors plus dephasing and a unit-trace check of every stored state; sampling with detection errors against the independent-flip distribution."
 ASSUMPTIONS = ["tolerance 1e-8 x scale for recomputed values; sampling clauses are seeded 6-sigma tests",
                "H(t) for the recomputation is QutipEmulator.get_hamiltonian(t, noiseless=True), whose correctness is C05"]
 TIERS = {"quick": dict(cases=900, shards=8, case_timeout=300, shard_timeout=1500),
